@@ -49,10 +49,29 @@ fn main() {
                 let chunk_out = chunk.with_extension("out");
                 std::fs::write(&chunk, lines[start..].join("\n") + "\n").unwrap();
                 let _ = std::fs::remove_file(&chunk_out);
-                let status = std::process::Command::new(&exe)
+                let mut child = std::process::Command::new(&exe)
                     .args(["run-stream", &args[2], chunk.to_str().unwrap(), chunk_out.to_str().unwrap()])
-                    .status()
+                    .spawn()
                     .unwrap();
+                // watchdog: a case that produces no output line for 20 s is killed and recorded as `timeout`
+                let mut last_len = 0u64;
+                let mut last_change = std::time::Instant::now();
+                let mut timed_out = false;
+                let status = loop {
+                    if let Some(st) = child.try_wait().unwrap() {
+                        break st;
+                    }
+                    std::thread::sleep(std::time::Duration::from_millis(50));
+                    let len = std::fs::metadata(&chunk_out).map(|m| m.len()).unwrap_or(0);
+                    if len != last_len {
+                        last_len = len;
+                        last_change = std::time::Instant::now();
+                    } else if last_change.elapsed().as_secs() >= 20 {
+                        let _ = child.kill();
+                        timed_out = true;
+                        break child.wait().unwrap();
+                    }
+                };
                 let done = std::fs::read_to_string(&chunk_out).unwrap_or_default();
                 let n_done = done.lines().count();
                 out.push_str(&done);
@@ -68,7 +87,7 @@ fn main() {
                 if start < lines.len() {
                     // the child died while running lines[start]
                     let id = lines[start].split(' ').next().unwrap_or("?");
-                    out.push_str(&format!("{} abort\n", id));
+                    out.push_str(&format!("{} {}\n", id, if timed_out { "timeout" } else { "abort" }));
                     start += 1;
                 }
             }
